@@ -17,7 +17,7 @@ func init() {
 	register("C10", checkC10)
 	describe("C10", Meta{
 		Technique: "ownership rule over resolved field objects (who may store to the topology fields), block-level pairing of Internal_inputs/Links size changes and of port counters with their endpoint lists, and index-space inference (INDEXKIND) inside every topology editor",
-		Claim:     "Decides structural clauses of C10: (a) only methods of Bondmachine (through their receiver) or code building a freshly allocated machine store to Links / Internal_inputs / Internal_outputs / Inputs / Outputs / Processors / Shared_links; (b) every block that grows, shrinks or replaces Internal_inputs does the same to Links (one link slot per internal input); (c) inside the editors, values stored into Links are internal-output indices and comparisons relate indices of one space; (d) the Inputs/Outputs counters change together with the endpoint lists; (c') the processor number printed into an endpoint name ('p' followed by the number) by an editor or a composite editor is a processor index; (f) REMOVAL: a topology list is never cut by reslicing at a position computed without walking the list; (e) DERIVED: any other field of Bondmachine that is filled with positions in Internal_inputs/Internal_outputs is refreshed or invalidated by every method that stores to that list. Necessary conditions for well-formedness after edits; that the right element is removed and the renumbering arithmetic are not decided.",
+		Claim:     "Decides structural clauses of C10: (a) only methods of Bondmachine (through their receiver) or code building a freshly allocated machine store to Links / Internal_inputs / Internal_outputs / Inputs / Outputs / Processors / Shared_links; (b) every block that grows, shrinks or replaces Internal_inputs does the same to Links (one link slot per internal input); (c) inside the editors, values stored into Links are internal-output indices and comparisons relate indices of one space; (d) the Inputs/Outputs counters change together with the endpoint lists; (c') the processor number printed into an endpoint name ('p' followed by the number) by an editor or a composite editor is a processor index; (f) REMOVAL: a topology list is never cut by reslicing at a position computed without walking the list; (e) DERIVED: any other field of Bondmachine that is filled with positions in Internal_inputs/Internal_outputs is refreshed or invalidated by every method that stores to that list. (COMPACT) the edit tools remove duplicate ids with slices.Compact only from a list sorted before in the same function. Necessary conditions for well-formedness after edits; that the right element is removed and the renumbering arithmetic are not decided.",
 		Note:      "Flow-insensitive within a block; 'fresh' means the machine variable is initialised with new(Bondmachine)/&Bondmachine{}/a Bondmachine value in the same function.",
 		DesignRef: "DESIGN.md §2 C10",
 	})
